@@ -209,6 +209,106 @@ theorem C11_layout_insensitive_total (s s' : Parse.Spec) (h : s.ok = true) (h' :
     Ast.newLim (String.ofList s.text) = Ast.newLim (String.ofList s'.text) := by
   rw [C12.C12_ast_from_declarations_total s h, C12.C12_ast_from_declarations_total s' h', hn]
 
+/-! ### declaration order, from the text -/
+
+/-- all results in order, or the first panic -/
+def seqOut {β} : List (Out β) → Out (List β)
+  | [] => .ok []
+  | x :: xs => x.bind fun b => (seqOut xs).bind fun bs => .ok (b :: bs)
+
+theorem mapOut_eq_seqOut {α β} (f : α → Out β) : ∀ (l : List α), mapOut f l = seqOut (l.map f)
+  | [] => rfl
+  | a :: as => by simp only [mapOut, List.map_cons, seqOut, mapOut_eq_seqOut f as]
+
+theorem seqOut_cons_ok {β} {x : Out β} {xs : List (Out β)} {r : List β} (h : seqOut (x :: xs) = .ok r) :
+    ∃ b bs, x = .ok b ∧ seqOut xs = .ok bs ∧ r = b :: bs := by
+  simp only [seqOut] at h
+  cases x with
+  | panicAt f m => simp at h
+  | ok b =>
+    simp only [Out.bind_ok] at h
+    cases hs : seqOut xs with
+    | panicAt f m => simp [hs] at h
+    | ok bs => simp only [hs, Out.bind_ok] at h; cases h; exact ⟨b, bs, rfl, rfl, rfl⟩
+
+/-- when every element succeeds, a permutation of the arguments gives the same results, permuted -/
+theorem seqOut_perm {β} {xs ys : List (Out β)} (hp : xs.Perm ys) :
+    ∀ r, seqOut xs = .ok r → ∃ r', seqOut ys = .ok r' ∧ r.Perm r' := by
+  induction hp with
+  | nil => intro r h; exact ⟨r, h, List.Perm.refl _⟩
+  | cons x _ ih =>
+    intro r h
+    obtain ⟨b, bs, rfl, hbs, rfl⟩ := seqOut_cons_ok h
+    obtain ⟨bs', hbs', hp'⟩ := ih bs hbs
+    exact ⟨b :: bs', by simp [seqOut, hbs'], List.Perm.cons _ hp'⟩
+  | swap x y l =>
+    intro r h
+    obtain ⟨b, bs, rfl, hbs, rfl⟩ := seqOut_cons_ok h
+    obtain ⟨c, cs, rfl, hcs, rfl⟩ := seqOut_cons_ok hbs
+    exact ⟨c :: b :: cs, by simp [seqOut, hcs], List.Perm.swap _ _ _⟩
+  | trans _ _ ih1 ih2 =>
+    intro r h
+    obtain ⟨r1, h1, p1⟩ := ih1 r h
+    obtain ⟨r2, h2, p2⟩ := ih2 r1 h1
+    exact ⟨r2, h2, p1.trans p2⟩
+
+theorem itemsOf_eq_seqOut : ∀ (ns : List Node), itemsOf ns = (seqOut (ns.map itemOf)).bind fun os => .ok (os.filterMap id)
+  | [] => rfl
+  | n :: ns => by
+    simp only [itemsOf, List.map_cons, seqOut, itemsOf_eq_seqOut ns]
+    cases itemOf n with
+    | panicAt f m => rfl
+    | ok o =>
+      simp only [Out.bind_ok]
+      cases seqOut (ns.map itemOf) with
+      | panicAt f m => rfl
+      | ok os => cases o <;> rfl
+
+theorem itemsOf_perm {ns ns' : List Node} (hp : ns.Perm ns') (items : List Item) (h : itemsOf ns = .ok items) :
+    ∃ items', itemsOf ns' = .ok items' ∧ items.Perm items' := by
+  rw [itemsOf_eq_seqOut] at h ⊢
+  cases hs : seqOut (ns.map itemOf) with
+  | panicAt f m => simp [hs] at h
+  | ok os =>
+    simp only [hs, Out.bind_ok] at h
+    cases h
+    obtain ⟨os', hos', hpo⟩ := seqOut_perm (hp.map itemOf) os hs
+    exact ⟨os'.filterMap id, by simp [hos'], hpo.filterMap id⟩
+
+/-- **C11 from the text: declaration order does not matter.**  Two well-formed texts (any layouts) whose declarations are
+    the same up to order — the node lists their declarations determine are permutations of each other — and whose type,
+    constant and enum-member names are declared once: if `Ast::new` answers `Ok` for one it answers `Ok` for the other, and
+    `Generator::generate` produces the same module for both.  (Budget-free front end `Ast.newLim`, the executable `Ast.new`
+    wherever that answers; `C12_ast_closed_form_total`, `seqOut_perm`, `C11_generate_order_independent`.) -/
+theorem C11_text_order_independent (s s' : Parse.Spec) (h : s.ok = true) (h' : s'.ok = true)
+    (hperm : (s.decls.map fun dl => dl.1.node).Perm (s'.decls.map fun dl => dl.1.node))
+    (ns : List Node) (items : List Item) (a : Ast)
+    (hns : mapOut (fun dl : Parse.Decl × Parse.Layout => dl.1.node) s.decls = .ok ns)
+    (hitems : itemsOf (ns ++ [.eof]) = .ok items) (ha : Ast.ofItems items = .ok a)
+    (hdT : (items.filterMap typeEntry).Pairwise (fun x y => x.1 ≠ y.1))
+    (hdC : ((constEntries items).map (·.1)).Nodup) :
+    Ast.newLim (String.ofList s.text) = .ok a ∧
+    ∃ a', Ast.newLim (String.ofList s'.text) = .ok a' ∧ generateModule a' = generateModule a := by
+  have e1 := C12.C12_ast_closed_form_total s h
+  have e2 := C12.C12_ast_closed_form_total s' h'
+  simp only [hns, Out.bind_ok, hitems, ha] at e1
+  refine ⟨e1, ?_⟩
+  rw [mapOut_eq_seqOut] at hns
+  have hpm : (s.decls.map fun dl : Parse.Decl × Parse.Layout => dl.1.node).Perm (s'.decls.map fun dl => dl.1.node) := hperm
+  obtain ⟨ns', hns', hpn⟩ := seqOut_perm hpm ns hns
+  obtain ⟨items', hitems', hpi⟩ := itemsOf_perm (hpn.append_right [Node.eof]) items hitems
+  have hc := C11_constant_index_order_independent hpi hdC
+  have hof : ∃ a', Ast.ofItems items' = .ok a' := by
+    unfold Ast.ofItems at ha ⊢
+    cases h1 : ConstantIndex.new items with
+    | panicAt f m => simp [h1] at ha
+    | ok cs => rw [← hc, h1]; exact ⟨_, rfl⟩
+  obtain ⟨a', ha'⟩ := hof
+  rw [mapOut_eq_seqOut] at e2
+  simp only [hns', Out.bind_ok, hitems', ha'] at e2
+  exact ⟨a', e2, (C11_generate_order_independent hpi hdT hdC a a' ha ha').symm⟩
+
+
 open Parse
 
 private def sp : Layout := ⟨[' '], []⟩
